@@ -128,7 +128,7 @@ static void onSignal(int sig) { abortWith("signal", std::to_string(sig)); }
 
 void installAbortHandlers() {
   std::set_terminate(onTerminate);
-  for (int s : {SIGSEGV, SIGBUS, SIGFPE, SIGILL, SIGABRT}) signal(s, onSignal);
+  for (int s : {SIGSEGV, SIGBUS, SIGFPE, SIGILL, SIGABRT, SIGPIPE}) signal(s, onSignal);
 }
 
 } // namespace verif
